@@ -19,7 +19,7 @@ from ..repo import AnalysisError, attr_chain, norm, walk_no_nested
 
 LEVEL = "other"
 TECHNIQUE = ("regex-literal analysis (re._parser) against the XML 1.0 productions parsed from their textual form; "
-             "writer/reader agreement of the escape format; def-use of configuration flags")
+             "writer/reader agreement of the escape format; def-use of configuration flags; source evaluation (sa/classeval.py) of toXmlName / fromXmlName / coerceComment / coercePubid on samples of every class difference, judged against the statement (legal, unchanged when legal, decodes back with a fresh filter, independent of history)")
 CLAIM = ('For every BMP code point, the frozen regular expressions classify it as illegal in a name (first / '
          'non-first position) exactly when the XML 1.0 productions say so; the escape sequence written for an '
          'illegal character is matched and decoded by the reader, has fixed width and uses only characters '
